@@ -46,6 +46,7 @@ type KernelSpec struct {
 	Mode  string     `json:"mode"` // "table" | "uniform"
 	Progs [][]string `json:"progs,omitempty"`
 	NWf   int        `json:"nwf,omitempty"`
+	Tail  int        `json:"tail,omitempty"` // work-items missing in the last wavefront (partial EXEC mask)
 	Body  []string   `json:"body,omitempty"`
 }
 
@@ -197,6 +198,9 @@ func (sc *Scenario) build() (*caseEnv, error) {
 		if err != nil {
 			return nil, err
 		}
+		if ks.Tail < 0 || ks.Tail > 63 {
+			return nil, fmt.Errorf("tail must be 0..63")
+		}
 		ce.kern = append(ce.kern, k)
 	}
 	return ce, nil
@@ -229,8 +233,9 @@ func (ce *caseEnv) groups() {
 		kn := ce.kern[k]
 		co := kn.CodeObject()
 		pkt := new(kernels.HsaKernelDispatchPacket)
-		pkt.GridSizeX, pkt.GridSizeY, pkt.GridSizeZ = uint32(cnt*kn.NWf*64), 1, 1
-		pkt.WorkgroupSizeX, pkt.WorkgroupSizeY, pkt.WorkgroupSizeZ = uint16(kn.NWf*64), 1, 1
+		wgSize := kn.NWf*64 - ce.sc.Kernels[k].Tail
+		pkt.GridSizeX, pkt.GridSizeY, pkt.GridSizeZ = uint32(cnt*wgSize), 1, 1
+		pkt.WorkgroupSizeX, pkt.WorkgroupSizeY, pkt.WorkgroupSizeZ = uint16(wgSize), 1, 1
 		pkt.KernelObject = codeBase + uint64(k)*0x10000
 		pkt.KernargAddress = kargBase + uint64(k)*64
 		pkt.GroupSegmentSize = uint32(kn.LDSSize)
